@@ -431,6 +431,14 @@ class ICaches(dict):
             self.s.point('caches')
         return dict.setdefault(self, k, v)
 
+    def clear(self):
+        self.s.point('caches')
+        dict.clear(self)
+
+    def pop(self, k, *a):
+        self.s.point('caches')
+        return dict.pop(self, k, *a)
+
     def __setitem__(self, k, v):
         # not used by the current code (setdefault fix); a plain store is a write, hence always a shared
         # access: this is what lets a reverted fix (two racing `self.caches[name] = CacheFactory()`) show up
@@ -554,7 +562,12 @@ def the_class(conn, k=0):
     key = (id(conn), k)
     if key not in e['classes']:
         name = sqlo.uniq('C09T')
-        cls = type(name, (e['SQLObject'],), {'_connection': conn, 'v': e['IntCol'](default=0)})
+        attrs = {'_connection': conn, 'v': e['IntCol'](default=0)}
+        if (len(e['classes']) + k) % 2 == 1:
+            # a model class whose LIVE instances are falsy (a container-like row object with nothing in it):
+            # "is the referent gone" must be asked with `is None`, never by truth value
+            attrs['__len__'] = lambda self: 0
+        cls = type(name, (e['SQLObject'],), attrs)
         cls.createTable()
         e['classes'][key] = cls
     return e['classes'][key]
@@ -665,6 +678,17 @@ def run_real(init, progs, sched):
                 if not dc:
                     s.point('ea.entry')      # doCache=False: expireAll touches nothing shared; mark the operation
                 conn.cache.weakrefAll(cls)
+                return ('unit',)
+            if k == 't':                       # the lock-free lookup (Transaction.commit, unpickling)
+                s.point('tryget.entry')
+                o = conn.cache.tryGet(op[1], cls)
+                return ('unit',) if o is None else ('obj', op[1], o)
+            if k in ('K', 'Kc'):               # connection.cache.clear() / clear(cls): documented, lock-free
+                s.point('clear.entry')
+                if k == 'K':
+                    conn.cache.clear()
+                else:
+                    conn.cache.clear(cls)
                 return ('unit',)
             if k == 'C':
                 s.point('cull.entry')
@@ -862,6 +886,11 @@ def _two_threads(ts, us):
     return any(t != u for t in ts for u in us)
 
 
+class _Everything:
+    def __contains__(self, x):
+        return True
+
+
 def oracle_all(init, progs, r):
     """the oracle for a run on one or several classes of one connection: the five clauses per class, plus: a thread
     gets an instance of the class it asked for, and two classes never share a cache"""
@@ -911,6 +940,10 @@ def oracle(init, progs, r, ptxt=None, tag=None):
                                      _threads_with(progs, lambda op: op == ('g', i))) for i in created_ids)
     # expire(id) legitimately forgets the instance: identity / reachability of such ids is not constrained
     expired = set(op[1] for p in progs for op in p if op[0] == 'x')
+    if any(op[0] in ('K', 'Kc') for p in progs for op in p):
+        # cache.clear() "removes everything from the cache ... can cause duplicate objects": only the clauses
+        # no-exception / nobody blocked / lock free are left
+        expired = _Everything()
 
     def generic(clause):
         return 'C09:%s:%s:%s' % (clause, ptxt, tag)
@@ -1092,7 +1125,7 @@ def op_kind(init, op, created):
         if i in created:
             return 'g-new'
         return 'g-miss' if i in init['db'] else 'g-nf'
-    return {'c': 'c', 'ca': 'c-auto', 'x': 'x', 'A': 'A', 'C': 'C'}[k]
+    return {'c': 'c', 'ca': 'c-auto', 'x': 'x', 'A': 'A', 'C': 'C', 't': 'tryGet', 'K': 'clear', 'Kc': 'clear-cls'}[k]
 
 
 def case_kind(init, progs):
@@ -1125,11 +1158,13 @@ def random_case(rng):
     for _ in range(3):
         p = []
         for _ in range(rng.randint(1, 3)):
-            k = rng.choice(['g', 'g', 'g', 'g', 'c', 'ca', 'x', 'A', 'C'])
+            k = rng.choice(['g', 'g', 'g', 'g', 'c', 'ca', 'x', 'A', 'C', 't'])
             if k == 'g':
                 p.append(('g', rng.choice([1, 2, 3, 4, 9])))
             elif k == 'x':
                 p.append(('x', rng.choice([1, 2, 3])))
+            elif k == 't':
+                p.append(('t', rng.choice([1, 2, 3, 4])))
             elif k == 'c':
                 p.append(('c', next(fresh)))
             else:
@@ -1177,7 +1212,8 @@ class Runner:
             r = run_real(init, progs, sched)
             fails = oracle_all(init, progs, r)
             parts = []
-            for k in range(len(r['classes'])):
+            in_model = not any(op[0] in ('t', 'K', 'Kc') for p in progs for op in p)
+            for k in range(len(r['classes']) if in_model else 0):
                 if k not in r['tcls']:
                     continue               # no thread works on this class
                 init_k, sub, sched_k, r_k = project(init, progs, sched, r, k)
@@ -1297,6 +1333,24 @@ def run(ctx):
                 continue
             two_thread_schedules(
                 lambda sched: run_.one(dict(init, tcls=[0, 1]), [[op_a], [op_b]], sched)[0], cap)
+
+    # 3d. entry points outside the model's alphabet that reach the same machinery (oracle only): the lock-free tryGet
+    #     (Transaction.commit, unpickling) against every operation that moves the entry it looks at, and
+    #     connection.cache.clear() / clear(cls) against loads and creates in progress
+    for init in (WARM, WARMU):
+        for i in (1, 3, 4):
+            for other in (('g', i), ('t', i), ('x', i), ('A',), ('C',), ('c', 7)):
+                if not thorough and init is WARM and other[0] in ('x', 'c', 't'):
+                    continue
+                two_thread_schedules(lambda sched: run_.one(init, [[('t', i)], [other]], sched)[0], cap)
+    for init in (WARM, COLD):
+        for kop in (('K',), ('Kc',)):
+            for other in (('g', 4), ('g', 1), ('g', 9), ('c', 7)):
+                if not thorough and kop == ('Kc',) and other != ('g', 4):
+                    continue
+                two_thread_schedules(lambda sched: run_.one(init, [[kop], [other]], sched)[0], cap)
+    for sched in ([1] * 10 + [2] * 6 + [0] * 4, [1] * 9 + [0] * 4 + [2] * 8):
+        run_.one(WARM, [[('K',)], [('g', 4)], [('g', 4)]], sched)
 
     # 4. random: 3 threads, random schedules
     for _ in range(ctx.budget(1200, 40000)):
